@@ -85,7 +85,7 @@ def option_overrides(p: T.Dict[str, T.Any], rnd: random.Random) -> T.List[str]:
 
 def to_trace(case: T.Dict[str, T.Any]) -> T.Dict[str, T.Any]:
     v = case['views']
-    d = {'id': case['id'], 'p': case['p'], 'has_p': case['kind'] == 'proj', 'M': case['M']}
+    d = {'id': case['id'], 'p': case['p'], 'has_p': case['kind'] == 'proj', 'M': v['M']}
     for k in ('targets', 'tests', 'benchmarks', 'tests_dat', 'benchmarks_dat', 'options', 'messages', 'dirs', 'plan',
               'installed', 'dat', 'dir_listing', 'did_install', 'tree', 'did_test', 'runs', 'bsfiles', 'bs_missing',
               'has_ninja', 'regen_inputs'):
@@ -130,6 +130,12 @@ def custom_source_causes(case: T.Dict[str, T.Any], items: T.List[str]) -> T.Opti
 def signature(case: T.Dict[str, T.Any], v: T.Dict[str, T.Any]) -> str:
     what = case['info'].get('name') or case['info'].get('flavour', '')
     det = '|'.join(sorted(str(x) for x in v['detail'])[:3])[:200]
+    if v['clause'] in ('PlanVsInstallData', 'InstalledVsInstallData') and v['detail']:
+        # normalised cause: every offending source path is installed to more than one destination (the JSON
+        # files are keyed by source path and can hold only one of them)
+        srcs = [e['src'] for e in case['views']['dat']]
+        if all(srcs.count(x) > 1 for x in v['detail']):
+            return f"{v['clause']}:same-source-installed-to-several-destinations"
     if case['kind'] == 'corpus':
         return f"{v['clause']}@corpus:{what}:{det}"
     if v['clause'] == 'CustomTargetSources':
